@@ -37,13 +37,16 @@ class AggMachine(finite.Machine):
         self.reads_operand = 0
         self.query_answer = True      # answer given to a state query on the accumulator (`store[h].is_empty()`)
         self.queries = 0
+        self.aliases = set()
 
     def _call(self, e, st, m):
         src = ast.unparse(e.func)
         if src.startswith('self.operands[') and len(e.args) == 1 and ast.unparse(e.args[0]) == 'context':
             self.reads_operand += 1
             return self.value
-        if isinstance(e.func, ast.Attribute) and _is_slot(e.func.value) and not e.args and not e.keywords:
+        is_acc = isinstance(e.func, ast.Attribute) and (_is_slot(e.func.value) or (
+            isinstance(e.func.value, ast.Name) and e.func.value.id in self.aliases))
+        if is_acc and not e.args and not e.keywords:
             # a question asked of the accumulator: both answers are explored by the rule
             self.queries += 1
             return self.query_answer
@@ -84,6 +87,16 @@ class AggMachine(finite.Machine):
         return {ast.Lt: rel == 'lt', ast.Gt: rel == 'gt', ast.LtE: rel in ('lt', 'eq'), ast.GtE: rel in ('gt', 'eq')}[type(op)]
 
     def stmt(self, s, st):
+        if isinstance(s, ast.Assign) and len(s.targets) == 1 and isinstance(s.targets[0], ast.Name):
+            # a local name for the accumulator object (`total = store[self.handle]`): the same object under another name
+            if _is_slot(s.value):
+                self.aliases.add(s.targets[0].id)
+            else:
+                self.aliases.discard(s.targets[0].id)
+        if isinstance(s, ast.Expr) and isinstance(s.value, ast.Call) and isinstance(s.value.func, ast.Attribute) \
+                and isinstance(s.value.func.value, ast.Name) and s.value.func.value.id in self.aliases:
+            self.events.append(('mut', s.value.func.attr, tuple(self.ev(a, st) for a in s.value.args)))
+            return st
         if isinstance(s, ast.Assign) and len(s.targets) == 1 and _is_slot(s.targets[0]):
             v = self.ev(s.value, st)
             self.events.append(('write', v))
